@@ -5,7 +5,7 @@ use vstd::std_specs::iter::IteratorSpec;
 use vstd::std_specs::ops::*;
 use vstd::arithmetic::power::pow;
 use vstd::arithmetic::power2::pow2;
-use core::ops::{Shl, Rem, RemAssign, SubAssign};
+use core::ops::{Shl, Rem, RemAssign, SubAssign, Mul, MulAssign};
 use core::cmp::Ordering;
 use core::mem;
 verus! {
@@ -47,6 +47,45 @@ impl BigUint {
 //@ stub u_core/one
 //@ stub u_core/normalize
 //@ stub u_cmp/cmp
+//@ stub u_core/is_zero
+
+    // contract-only re-homing of `impl Integer for BigUint` (num_integer::Integer is an external trait)
+//@ extract src/biguint.rs :: impl Integer for BigUint :: fn is_even props=C13,C05
+    fn is_even(&self) -> /*+*/(r: /*-*/bool/*+*/)/*-*/
+//+{
+        ensures r == (self.v() % 2 == 0)
+//+}
+    {
+//+{
+        proof { if self.data@.len() > 0 { lemma_low_digit_parity(self.data@); } }
+//+}
+        // Considering only the last digit.
+        match self.data.first() {
+            Some(x) => x.is_even(),
+            None => true,
+        }
+    }
+//@ end
+
+//@ extract src/biguint.rs :: impl Integer for BigUint :: fn is_odd props=C13,C05
+    fn is_odd(&self) -> /*+*/(r: /*-*/bool/*+*/)/*-*/
+//+{
+        ensures r == (self.v() % 2 == 1)
+//+}
+    {
+        !self.is_even()
+    }
+//@ end
+}
+
+pub proof fn lemma_low_digit_parity(s: Seq<u64>)
+    requires s.len() > 0
+    ensures val(s) % 2 == (s[0] as nat) % 2
+{
+    lemma_digit_split(s, 0);
+    let h = val(s.subrange(1, s.len() as int));
+    assert(pw(0) * ((s[0] as nat) + B() * h) == (s[0] as nat) + B() * h) by (nonlinear_arith) requires pw(0) == 1;
+    assert(((s[0] as nat) + B() * h) % 2 == (s[0] as nat) % 2) by (nonlinear_arith) requires B() == 0x1_0000_0000_0000_0000nat;
 }
 //@ stub k_monty/inv_mod_alt
 //@ stub k_monty/montgomery
@@ -83,6 +122,65 @@ impl SubAssignSpecImpl<&BigUint> for BigUint {
 }
 impl SubAssign<&BigUint> for BigUint {
 //@ stub u_addsub/sub_assign
+}
+
+impl RemSpecImpl<&BigUint> for &BigUint {
+    open spec fn obeys_rem_spec() -> bool { false }
+    open spec fn rem_req(self, rhs: &BigUint) -> bool { self.wf() && rhs.wf() && (!mp() ==> rhs.v() != 0) }
+    open spec fn rem_spec(self, rhs: &BigUint) -> BigUint { arbitrary() }
+}
+impl Rem<&BigUint> for &BigUint {
+    type Output = BigUint;
+//@ stub u_divscalar/rem_ref_ref
+}
+impl MulSpecImpl<&BigUint> for &BigUint {
+    open spec fn obeys_mul_spec() -> bool { false }
+    open spec fn mul_req(self, rhs: &BigUint) -> bool { self.wf() && rhs.wf() }
+    open spec fn mul_spec(self, rhs: &BigUint) -> BigUint { arbitrary() }
+}
+impl Mul<&BigUint> for &BigUint {
+    type Output = BigUint;
+    //@ assume BigUint:Mul<&BigUint>for(&BigUint) : impl_mul! leaf (src/biguint/multiplication.rs): dispatch on empty / one-digit / general operands by slice patterns (outside the Verus subset) to scalar_mul (proved, k_mul) and mul3 (proved against the assumed mac3)
+    #[verifier::external_body]
+    fn mul(self, other: &BigUint) -> (r: BigUint) ensures r.wf(), r.v() == self.v() * other.v() { unimplemented!() }
+}
+impl MulAssignSpecImpl<&BigUint> for BigUint {
+    open spec fn obeys_mul_assign_spec() -> bool { false }
+    open spec fn mul_assign_req(&self, rhs: &BigUint) -> bool { self.wf() && rhs.wf() }
+    open spec fn mul_assign_spec(&self, rhs: &BigUint) -> &BigUint { arbitrary() }
+}
+impl MulAssign<&BigUint> for BigUint {
+    //@ assume BigUint:MulAssign<&BigUint> : impl_mul_assign! leaf (slice-pattern dispatch, see Mul)
+    #[verifier::external_body]
+    fn mul_assign(&mut self, other: &BigUint) ensures final(self).wf(), final(self).v() == old(self).v() * other.v() { unimplemented!() }
+}
+
+// local model of num_integer::Integer::{is_even, is_odd} and num_traits::{Zero::is_zero, One::is_one} on u64 (external crates)
+pub trait PrimU64Q: Sized {
+    spec fn as_nat(self) -> nat;
+    fn is_zero(&self) -> (r: bool)
+        ensures r == (self.as_nat() == 0);
+    fn is_one(&self) -> (r: bool)
+        ensures r == (self.as_nat() == 1);
+    fn is_odd(&self) -> (r: bool)
+        ensures r == (self.as_nat() % 2 == 1);
+    fn is_even(&self) -> (r: bool)
+        ensures r == (self.as_nat() % 2 == 0);
+}
+impl PrimU64Q for u64 {
+    open spec fn as_nat(self) -> nat { self as nat }
+    //@ assume num_traits::<u64 as Zero>::is_zero : external crate; contract on the trait declaration above
+    #[verifier::external_body]
+    fn is_zero(&self) -> (r: bool) { unimplemented!() }
+    //@ assume num_traits::<u64 as One>::is_one : external crate; contract on the trait declaration above
+    #[verifier::external_body]
+    fn is_one(&self) -> (r: bool) { unimplemented!() }
+    //@ assume num_integer::<u64 as Integer>::is_odd : external crate; contract on the trait declaration above
+    #[verifier::external_body]
+    fn is_odd(&self) -> (r: bool) { unimplemented!() }
+    //@ assume num_integer::<u64 as Integer>::is_even : external crate; contract on the trait declaration above
+    #[verifier::external_body]
+    fn is_even(&self) -> (r: bool) { unimplemented!() }
 }
 
 /// the i most significant digits of s
@@ -174,7 +272,8 @@ pub proof fn lemma_rep_pow(rv: nat, a: nat, b: nat, x: int, e1: nat, e2: nat, n:
     vstd::arithmetic::power::lemma_pow_adds(x, e1, e2);
 }
 
-pub open spec fn is_modpow(b: int, e: nat, m: int, r: int) -> bool { exists|k: int| r == pow(b, e) + #[trigger] (k * m) }
+/// r is b^e reduced modulo m: r = b^e + k*m for some integer k
+pub open spec fn is_modpow(b: int, e: nat, m: int, r: int) -> bool { exists|k: int| r == vstd::arithmetic::power::pow(b, e) + #[trigger] (k * m) }
 
 pub closed spec fn pw_ok(p: BigUint, e: nat, x: int, n: nat, m: int) -> bool { p.data@.len() == n && rep(val(p.data@), pow(x, e), pw(n) as int, m) }
 
@@ -545,6 +644,488 @@ pub(super) fn monty_modpow(x: &BigUint, y: &BigUint, m: &BigUint) -> /*+*/(res: 
     zz
 }
 //@ end
+
+// ---------------------------------------------------------------- plain_modpow: right-to-left binary exponentiation
+
+/// one more bit of the exponent: e mod 2^(p+1) == e mod 2^p + bit_p(e) * 2^p
+pub proof fn lemma_low_step(e: nat, p: nat)
+    ensures e % p2(p + 1) == e % p2(p) + (if bitv(e, p) { p2(p) } else { 0 })
+{
+    vstd::arithmetic::power2::lemma_pow2_pos(p);
+    vstd::arithmetic::power2::lemma_pow2_adds(p, 1);
+    vstd::arithmetic::power2::lemma2_to64();
+    let q = e / p2(p);
+    let r0 = e % p2(p);
+    vstd::arithmetic::div_mod::lemma_fundamental_div_mod(e as int, p2(p) as int);
+    vstd::arithmetic::div_mod::lemma_fundamental_div_mod(q as int, 2);
+    let h = q / 2;
+    let bit = q % 2;
+    assert(e == h * p2(p + 1) + (bit * p2(p) + r0)) by (nonlinear_arith)
+        requires e == p2(p) * q + r0, q == 2 * h + bit, p2(p + 1) == p2(p) * 2;
+    assert(bit * p2(p) + r0 < p2(p + 1)) by (nonlinear_arith)
+        requires bit <= 1, r0 < p2(p), p2(p + 1) == p2(p) * 2;
+    vstd::arithmetic::div_mod::lemma_fundamental_div_mod_converse(e as int, p2(p + 1) as int, h as int, (bit * p2(p) + r0) as int);
+    if bit == 1 { assert(bit * p2(p) == p2(p)) by (nonlinear_arith) requires bit == 1; }
+    else { assert(bit * p2(p) == 0) by (nonlinear_arith) requires bit == 0; }
+}
+
+pub proof fn lemma_valp_zero(s: Seq<u64>, i: nat)
+    requires i <= s.len(), forall|j: int| 0 <= j < i ==> s[j] == 0
+    ensures valp(s, i) == 0
+    decreases i
+{
+    if i > 0 {
+        lemma_valp_zero(s, (i - 1) as nat);
+        assert((s[i - 1] as nat) * pw((i - 1) as nat) == 0) by (nonlinear_arith) requires s[i - 1] == 0;
+    }
+}
+
+/// digits below i all zero: no exponent bit below 64*i
+pub proof fn lemma_low_digits_zero(s: Seq<u64>, i: nat)
+    requires i < s.len(), forall|j: int| 0 <= j < i ==> s[j] == 0
+    ensures val(s) % p2(64 * i) == 0
+{
+    lemma_digit_split(s, i);
+    lemma_valp_zero(s, i);
+    lemma_pw_p2_(i);
+    let x = (s[i as int] as nat) + B() * val(s.subrange(i as int + 1, s.len() as int));
+    vstd::arithmetic::power2::lemma_pow2_pos(64 * i);
+    vstd::arithmetic::div_mod::lemma_mod_multiples_basic(x as int, p2(64 * i) as int);
+    assert(pw(i) * x == x * p2(64 * i)) by (nonlinear_arith) requires pw(i) == p2(64 * i);
+}
+
+/// the top digit bounds the value
+pub proof fn lemma_top_bound(s: Seq<u64>, c: nat)
+    requires s.len() >= 1, c <= 64, (s[s.len() - 1] as nat) < p2(c)
+    ensures val(s) < p2(64 * ((s.len() - 1) as nat) + c)
+{
+    let l = (s.len() - 1) as nat;
+    lemma_digit_split(s, l);
+    lemma_pw_p2_(l);
+    assert(s.subrange(l as int + 1, s.len() as int) =~= Seq::<u64>::empty());
+    vstd::arithmetic::power2::lemma_pow2_adds(64 * l, c);
+    let d = s[l as int] as nat;
+    assert(valp(s, l) + pw(l) * (d + B() * 0) < pw(l) * p2(c)) by (nonlinear_arith)
+        requires valp(s, l) < pw(l), d + 1 <= p2(c);
+}
+
+/// r == d >> c == 0 bounds d (c < 64)
+pub proof fn lemma_shr_zero_bound(d: u64, c: u8)
+    requires c < 64, d >> c == 0
+    ensures (d as nat) < p2(c as nat)
+{
+    vstd::bits::lemma_u64_shr_is_div(d, c as u64);
+    assert(d >> c == d >> (c as u64)) by (bit_vector);
+    vstd::arithmetic::power2::lemma_pow2_pos(c as nat);
+    vstd::arithmetic::div_mod::lemma_fundamental_div_mod(d as int, p2(c as nat) as int);
+    vstd::arithmetic::div_mod::lemma_mod_bound(d as int, p2(c as nat) as int);
+    assert(p2(c as nat) * 0 == 0) by (nonlinear_arith);
+}
+
+pub proof fn lemma_udiv_congm(a: nat, m: nat, q: nat, r: nat)
+    requires udiv_ok(a, m, q, r)
+    ensures congm(r as int, a as int, m as int)
+{
+    lemma_congm_add_multiple(r as int, q as int, m as int);
+    lemma_congm_sym((r as int) + (q as int) * (m as int), r as int, m as int);
+    assert(a as int == (r as int) + (q as int) * (m as int)) by (nonlinear_arith) requires a == q * m + r;
+}
+
+/// r == a*b with a == x^e1, b == x^e2 (mod m)  ==>  r == x^(e1+e2)
+pub proof fn lemma_cpow_mul(rv: int, a: int, b: int, x: int, e1: nat, e2: nat, m: int)
+    requires congm(rv, a * b, m), congm(a, pow(x, e1), m), congm(b, pow(x, e2), m)
+    ensures congm(rv, pow(x, e1 + e2), m)
+{
+    lemma_congm_mul(a, pow(x, e1), b, pow(x, e2), m);
+    vstd::arithmetic::power::lemma_pow_adds(x, e1, e2);
+    lemma_congm_trans(rv, a * b, pow(x, e1 + e2), m);
+}
+
+/// one squaring of the running base
+pub proof fn lemma_sq(b0: nat, b1: nat, x: int, t: nat, m: nat)
+    requires congm(b0 as int, pow(x, t), m as int), exists|q: nat| #[trigger] udiv_ok(b0 * b0, m, q, b1)
+    ensures congm(b1 as int, pow(x, 2 * t), m as int)
+{
+    let q = choose|q: nat| #[trigger] udiv_ok(b0 * b0, m, q, b1);
+    lemma_udiv_congm(b0 * b0, m, q, b1);
+    assert((b0 * b0) as int == (b0 as int) * (b0 as int)) by (nonlinear_arith);
+    lemma_cpow_mul(b1 as int, b0 as int, b0 as int, x, t, t, m as int);
+}
+
+/// one step of the closure `unit` of plain_modpow at bit position p >= 1
+pub proof fn lemma_unit(b0: nat, b1: nat, a0: nat, a1: nat, a2: nat, odd: bool, x: int, e: nat, p: nat, m: nat)
+    requires p >= 1,
+        congm(b0 as int, pow(x, p2((p - 1) as nat)), m as int), congm(a0 as int, pow(x, e % p2(p)), m as int),
+        exists|q: nat| #[trigger] udiv_ok(b0 * b0, m, q, b1),
+        odd == bitv(e, p),
+        odd ==> a1 == a0 * b1 && exists|q: nat| #[trigger] udiv_ok(a1, m, q, a2),
+        !odd ==> a2 == a0,
+    ensures congm(b1 as int, pow(x, p2(p)), m as int), congm(a2 as int, pow(x, e % p2(p + 1)), m as int)
+{
+    lemma_sq(b0, b1, x, p2((p - 1) as nat), m);
+    vstd::arithmetic::power2::lemma_pow2_pos(p);
+    vstd::arithmetic::power2::lemma_pow2_pos(p + 1);
+    vstd::arithmetic::power2::lemma_pow2_adds((p - 1) as nat, 1);
+    vstd::arithmetic::power2::lemma2_to64();
+    assert(2 * p2((p - 1) as nat) == p2(p));
+    lemma_low_step(e, p);
+    if odd {
+        let q = choose|q: nat| #[trigger] udiv_ok(a1, m, q, a2);
+        lemma_udiv_congm(a1, m, q, a2);
+        assert((a0 * b1) as int == (a0 as int) * (b1 as int)) by (nonlinear_arith);
+        lemma_cpow_mul(a2 as int, a0 as int, b1 as int, x, e % p2(p), p2(p), m as int);
+        assert(e % p2(p + 1) == e % p2(p) + p2(p));
+        assert(congm(a2 as int, pow(x, e % p2(p + 1)), m as int));
+    } else {
+        assert(e % p2(p + 1) == e % p2(p));
+    }
+}
+
+/// bit c of digit k, read from the running copy r == d >> c
+pub proof fn lemma_bit_odd(s: Seq<u64>, k: nat, c: u8, r: u64)
+    requires k < s.len(), c < 64, r == s[k as int] >> c
+    ensures bitv(val(s), 64 * k + c as nat) == (r as nat % 2 == 1), c < 63 ==> r >> 1u8 == s[k as int] >> ((c + 1) as u8), c == 63 ==> r >> 1u8 == 0
+{
+    lemma_bit_of_digit(s, k, c as u64);
+    let d = s[k as int];
+    assert((d >> c) == (d >> (c as u64))) by (bit_vector);
+    assert(((d >> c) & 1 == 1) == ((d >> c) % 2 == 1)) by (bit_vector);
+    assert(c < 63 ==> (d >> c) >> 1u8 == d >> ((c + 1) as u8)) by (bit_vector);
+    assert(c == 63 ==> (d >> c) >> 1u8 == 0) by (bit_vector);
+}
+
+
+//@ extract src/biguint/power.rs :: fn plain_modpow rules=R0,R11,R14n,R28a,R28b,R28c,R2c,R27,R3pa,R3pb,R3mb,R3mc,R10n,R10n,R10e props=C05,C14
+fn plain_modpow(base: &BigUint, exp_data: &[BigDigit], modulus: &BigUint) -> /*+*/(res: /*-*/BigUint/*+*/)/*-*/
+//+{
+    requires base.wf(), modulus.wf(), !mp() ==> modulus.v() != 0
+    ensures mp() ==> modulus.v() != 0, res.wf(),
+        is_modpow(base.v() as int, val(exp_data@), modulus.v() as int, res.v() as int),
+        modulus.v() >= 2 ==> res.v() < modulus.v()
+//+}
+{
+//+{
+    let ghost x0 = base.v() as int;
+    let ghost mv = modulus.v();
+    let ghost ed = exp_data@;
+    let ghost ee = val(ed);
+    let ghost ll = ed.len();
+//+}
+    __assert(!modulus.is_zero());
+
+    let i = match __position_nonzero(exp_data) {
+        None => /*+*/{ proof { lemma_val_zero_ext(Seq::<u64>::empty(), ed); vstd::arithmetic::power::lemma_pow0(x0); lemma_congm_refl(1, mv as int); } /*-*/return BigUint::one()/*+*/; }/*-*/,
+        Some(i) => i,
+    };
+
+    let mut base = Rem::rem(base, modulus);
+//+{
+    let ghost mut pp: nat = 0;
+    proof {
+        let q = choose|q: nat| #[trigger] udiv_ok(x0 as nat, mv, q, base.v());
+        lemma_udiv_congm(x0 as nat, mv, q, base.v());
+        vstd::arithmetic::power2::lemma2_to64();
+        vstd::arithmetic::power::lemma_pow1(x0);
+    }
+//+}
+    { let mut i__ = 0; let e__ = i; while i__ < e__
+//+{
+        invariant
+            e__ == i, i__ <= e__, pp == 64 * i__, base.wf(), modulus.wf(), mv == modulus.v(), mv != 0, base.v() < mv,
+            congm(base.v() as int, pow(x0, p2(pp)), mv as int),
+        decreases e__ - i__
+//+}
+    { i__ += 1;
+//+{
+        let ghost p0 = pp;
+//+}
+        { let mut i__ = 0; let e__ = big_digit::BITS; while i__ < e__
+//+{
+            invariant
+                e__ == 64, i__ <= 64, pp == p0 + i__, base.wf(), modulus.wf(), mv == modulus.v(), mv != 0, base.v() < mv,
+                congm(base.v() as int, pow(x0, p2(pp)), mv as int),
+            decreases e__ - i__
+//+}
+        { i__ += 1;
+//+{
+            let ghost b0 = base.v();
+//+}
+            base = Rem::rem(Mul::mul(&base, &base), modulus);
+//+{
+            proof {
+                lemma_sq(b0, base.v(), x0, p2(pp), mv);
+                vstd::arithmetic::power2::lemma_pow2_adds(pp, 1);
+                vstd::arithmetic::power2::lemma2_to64();
+                pp = pp + 1;
+            }
+//+}
+        } }
+    } }
+
+    let mut r = exp_data[i];
+    let mut b = 0u8;
+//+{
+    proof {
+        lemma_low_digits_zero(ed, i as nat);
+        let d = ed[i as int];
+        assert(d >> 0u8 == d) by (bit_vector);
+    }
+//+}
+    while r.is_even()
+//+{
+        invariant
+            b < 64, r == ed[i as int] >> b, r != 0, pp == 64 * i + b, ee % p2(pp) == 0, i < ed.len(), ed == exp_data@, ee == val(ed),
+            base.wf(), modulus.wf(), mv == modulus.v(), mv != 0, base.v() < mv,
+            congm(base.v() as int, pow(x0, p2(pp)), mv as int),
+        decreases r
+//+}
+    {
+//+{
+        let ghost b0 = base.v();
+        proof {
+            lemma_bit_odd(ed, i as nat, b, r);
+            lemma_low_step(ee, pp);
+            let d = ed[i as int];
+            assert(r == d >> b && r != 0 && r % 2 == 0 && b < 64 ==> b < 63 && (r >> 1u8) != 0 && (r >> 1u8) < r) by (bit_vector);
+        }
+//+}
+        base = Rem::rem(Mul::mul(&base, &base), modulus);
+        r >>= 1;
+        b += 1;
+//+{
+        proof {
+            lemma_sq(b0, base.v(), x0, p2(pp), mv);
+            vstd::arithmetic::power2::lemma_pow2_adds(pp, 1);
+            vstd::arithmetic::power2::lemma2_to64();
+            pp = pp + 1;
+        }
+//+}
+    }
+//+{
+    proof {
+        lemma_bit_odd(ed, i as nat, b, r);
+        lemma_low_step(ee, pp);
+    }
+//+}
+
+    let mut exp_iter: &[BigDigit] = &exp_data[i + 1..];
+    if exp_iter.len() == 0 && r.is_one() {
+//+{
+        proof {
+            let d = ed[i as int];
+            vstd::arithmetic::power2::lemma2_to64_rest();
+            if b < 63 {
+                assert(d >> b == 1 && b < 63 ==> d >> ((b + 1) as u8) == 0) by (bit_vector);
+                lemma_shr_zero_bound(d, (b + 1) as u8);
+            }
+            lemma_top_bound(ed, (b + 1) as nat);
+            vstd::arithmetic::div_mod::lemma_small_mod(ee, p2(pp + 1));
+        }
+//+}
+        return base;
+    }
+
+    let mut acc = base.clone();
+    r >>= 1;
+    b += 1;
+//+{
+    proof { pp = pp + 1; }
+    let ghost mut kf: nat = i as nat;
+    let ghost mut cf: u8 = b;
+//+}
+
+    {
+        { let (nb__, rest__) = __slice_next_back(exp_iter); exp_iter = rest__; if let Some(x_r__) = nb__ { let last = *x_r__;
+            // consume exp_data[i]
+            { let mut i__ = b; let e__ = big_digit::BITS; while i__ < e__
+//+{
+                invariant
+                    e__ == 64, i__ <= 64, pp == 64 * i + i__, i__ < 64 ==> r == ed[i as int] >> i__, i < ed.len(),
+                    base.wf(), acc.wf(), modulus.wf(), mv == modulus.v(), mv != 0, ed == exp_data@, ee == val(ed), pp >= 1,
+                    congm(base.v() as int, pow(x0, p2((pp - 1) as nat)), mv as int), congm(acc.v() as int, pow(x0, ee % p2(pp)), mv as int),
+                    base.v() < mv, acc.v() < mv,
+                decreases e__ - i__
+//+}
+            {
+//+{
+                let ghost c0 = i__;
+//+}
+                i__ += 1;
+                { let exp_is_odd = r.is_odd();
+//+{
+                    let ghost b0 = base.v();
+                    let ghost a0 = acc.v();
+                    let ghost mut a1: nat = 0;
+                    proof { lemma_bit_odd(ed, i as nat, c0, r); }
+//+}
+                    { base = Rem::rem(Mul::mul(&base, &base), modulus); if exp_is_odd { MulAssign::mul_assign(&mut acc, &base);
+//+{
+                        proof { a1 = acc.v(); }
+//+}
+                        RemAssign::rem_assign(&mut acc, modulus); } }
+//+{
+                    proof {
+                        lemma_unit(b0, base.v(), a0, a1, acc.v(), exp_is_odd, x0, ee, pp, mv);
+                        pp = pp + 1;
+                    }
+//+}
+                    }
+                r >>= 1;
+            } }
+
+            // consume all other digits before the last
+            { let mut i__ = 0; while i__ < exp_iter.len()
+//+{
+                invariant
+                    i__ <= exp_iter@.len(), exp_iter@ =~= ed.subrange(i + 1, ed.len() - 1), i + 1 < ed.len(), pp == 64 * (i + 1 + i__),
+                    base.wf(), acc.wf(), modulus.wf(), mv == modulus.v(), mv != 0, ed == exp_data@, ee == val(ed), pp >= 1,
+                    congm(base.v() as int, pow(x0, p2((pp - 1) as nat)), mv as int), congm(acc.v() as int, pow(x0, ee % p2(pp)), mv as int),
+                    base.v() < mv, acc.v() < mv,
+                decreases exp_iter@.len() - i__
+//+}
+            { let r = exp_iter[i__]; i__ += 1;
+                let mut r = r;
+//+{
+                let ghost kk = (i + i__) as nat;
+                proof {
+                    let d = ed[kk as int];
+                    assert(d >> 0u8 == d) by (bit_vector);
+                }
+//+}
+                { let mut i__ = 0; let e__ = big_digit::BITS; while i__ < e__
+//+{
+                    invariant
+                        e__ == 64, i__ <= 64, pp == 64 * kk + i__, i__ < 64 ==> r == ed[kk as int] >> i__, kk < ed.len(),
+                        base.wf(), acc.wf(), modulus.wf(), mv == modulus.v(), mv != 0, ed == exp_data@, ee == val(ed), pp >= 1,
+                    congm(base.v() as int, pow(x0, p2((pp - 1) as nat)), mv as int), congm(acc.v() as int, pow(x0, ee % p2(pp)), mv as int),
+                    base.v() < mv, acc.v() < mv,
+                    decreases e__ - i__
+//+}
+                {
+//+{
+                    let ghost c0 = i__;
+//+}
+                    i__ += 1;
+                    { let exp_is_odd = r.is_odd();
+//+{
+                    let ghost b0 = base.v();
+                    let ghost a0 = acc.v();
+                    let ghost mut a1: nat = 0;
+                    proof { lemma_bit_odd(ed, kk, c0, r); }
+//+}
+                    { base = Rem::rem(Mul::mul(&base, &base), modulus); if exp_is_odd { MulAssign::mul_assign(&mut acc, &base);
+//+{
+                        proof { a1 = acc.v(); }
+//+}
+                        RemAssign::rem_assign(&mut acc, modulus); } }
+//+{
+                    proof {
+                        lemma_unit(b0, base.v(), a0, a1, acc.v(), exp_is_odd, x0, ee, pp, mv);
+                        pp = pp + 1;
+                    }
+//+}
+                    }
+                    r >>= 1;
+                } }
+            } }
+            r = last;
+//+{
+            proof {
+                kf = (ed.len() - 1) as nat;
+                cf = 0;
+                let d = ed[kf as int];
+                assert(d >> 0u8 == d) by (bit_vector);
+            }
+//+}
+        } }
+
+//+{
+        let ghost mut c: u8 = cf;
+//+}
+        while !r.is_zero()
+//+{
+            invariant
+                c <= 64, c < 64 ==> r == ed[kf as int] >> c, c == 64 ==> r == 0, pp == 64 * kf + c, kf + 1 == ed.len(),
+                base.wf(), acc.wf(), modulus.wf(), mv == modulus.v(), mv != 0, ed == exp_data@, ee == val(ed), pp >= 1,
+                    congm(base.v() as int, pow(x0, p2((pp - 1) as nat)), mv as int), congm(acc.v() as int, pow(x0, ee % p2(pp)), mv as int),
+                    base.v() < mv, acc.v() < mv,
+            decreases r
+//+}
+        {
+//+{
+            let ghost c0 = c;
+            proof { assert(r != 0 ==> (r >> 1u8) < r) by (bit_vector); }
+//+}
+            { let exp_is_odd = r.is_odd();
+//+{
+                    let ghost b0 = base.v();
+                    let ghost a0 = acc.v();
+                    let ghost mut a1: nat = 0;
+                    proof { lemma_bit_odd(ed, kf, c0, r); }
+//+}
+                    { base = Rem::rem(Mul::mul(&base, &base), modulus); if exp_is_odd { MulAssign::mul_assign(&mut acc, &base);
+//+{
+                        proof { a1 = acc.v(); }
+//+}
+                        RemAssign::rem_assign(&mut acc, modulus); } }
+//+{
+                    proof {
+                        lemma_unit(b0, base.v(), a0, a1, acc.v(), exp_is_odd, x0, ee, pp, mv);
+                        pp = pp + 1;
+                    }
+//+}
+                    }
+            r >>= 1;
+//+{
+            proof { c = (c + 1) as u8; }
+//+}
+        }
+//+{
+        proof {
+            let d = ed[kf as int];
+            vstd::arithmetic::power2::lemma2_to64_rest();
+            if c < 64 { lemma_shr_zero_bound(d, c); }
+            lemma_top_bound(ed, c as nat);
+            vstd::arithmetic::div_mod::lemma_small_mod(ee, p2(pp));
+        }
+//+}
+    }
+    acc
+}
+//@ end
+
+//@ extract src/biguint/power.rs :: fn modpow rules=R0,R11 props=C05,C14 label=power_modpow
+pub(super) fn modpow(x: &BigUint, exponent: &BigUint, modulus: &BigUint) -> /*+*/(res: /*-*/BigUint/*+*/)/*-*/
+//+{
+    requires x.wf(), exponent.wf(), modulus.wf(), !mp() ==> modulus.v() != 0
+    ensures mp() ==> modulus.v() != 0, res.wf(), res.v() < modulus.v(),
+        is_modpow(x.v() as int, exponent.v(), modulus.v() as int, res.v() as int)
+//+}
+{
+    __assert(!modulus.is_zero());
+
+    if modulus.is_odd() {
+        // For an odd modulus, we can use Montgomery multiplication in base 2^32.
+        monty_modpow(x, exponent, modulus)
+    } else {
+        // Otherwise do basically the same as `num::pow`, but with a modulus.
+        plain_modpow(x, &exponent.data, modulus)
+    }
+}
+//@ end
+
+impl BigUint {
+//@ extract src/biguint.rs :: impl BigUint :: fn modpow tysub=power~::~modpow=>modpow props=C05,C14 label=BigUint_modpow
+    pub fn modpow(&self, exponent: &Self, modulus: &Self) -> /*+*/(r: /*-*/Self/*+*/)/*-*/
+//+{
+        requires self.wf(), exponent.wf(), modulus.wf(), !mp() ==> modulus.v() != 0
+        ensures mp() ==> modulus.v() != 0, r.wf(), r.v() < modulus.v(), is_modpow(self.v() as int, exponent.v(), modulus.v() as int, r.v() as int)
+//+}
+    {
+        modpow(self, exponent, modulus)
+    }
+//@ end
+}
 
 } // mod u
 } // verus!
